@@ -145,6 +145,9 @@ def parts(tier):
             CH("odd_characters", "vflib.props.c04:scen_tv", {"pool": "KEY_POOL_ODD", "styled": "k3",
                                                              "templates": ["nested_object", "list_of_objects", "odd_values_nested", "odd_string_values"]},
                shards=8, timeout=170, path_timeout=30),
+            CH("symbol_prefixed_any_position", "vflib.props.c04:scen_tv", {"pool": "KEY_POOL_PREFIXED", "styled": "any1",
+                                                                           "templates": ["nested_object", "list_of_objects", "optional_containers"]},
+               shards=16, timeout=170, path_timeout=30),
             CH("second_emission_same_registry", "vflib.props.c04:scen_tv", {"pool": "KEY_POOL_QUICK", "styled": "k3", "second_emission": True,
                                                                             "layouts": ["flat"],
                                                                             "templates": ["flat_scalars", "odd_string_values", "list_of_objects"]},
